@@ -615,6 +615,24 @@ def run_files(spec, log, scratch):
                     written_order = use if use is not None else [str(x) for x in src.get_decay().outs]
                     got = D.load_dat_file(fn, written_order)
                     check_particles(got, "CalAngleData.savetxt(order=%s)->load_dat_file" % ("".join(use) if use else "None"), i, exact=False)
+                    if op.get("nfile", 1) != 2:
+                        # with charges: cp_trans=True writes the spatial components times the charge sign, exactly
+                        q = np.where((np.arange(N) + op.get("nfile", 1)) % 3 == 0, -1.0, 1.0)
+                        src["charge_conjugation"] = q
+                        fn2 = os.path.join(scratch, "cacp%d.dat" % i)
+                        src.savetxt(fn2, order=use, cp_trans=True, save_charge=bool(op["z"]))
+                        got = {str(kk): np.array(v) for kk, v in D.load_dat_file(fn2, written_order).items()}
+                        for kk in P:
+                            want = P[kk] * np.stack([np.ones(N), q, q, q], axis=-1)
+                            if got[kk].shape != want.shape or not np.array_equal(got[kk], want):
+                                log.fail("file-roundtrip", "CalAngleData.savetxt(cp_trans)|content", "momenta of %s written with cp_trans=True differ from charge * momentum by up to %.3g" % (kk, float(np.max(np.abs(got[kk] - want))) if got[kk].shape == want.shape else float("inf")), step=i)
+                                raise Failure()
+                        if op["z"]:
+                            qf = np.loadtxt(fn2[::-1].replace(".", ".c", 1)[::-1]).reshape((-1,))
+                            if not np.array_equal(qf, q):
+                                log.fail("file-roundtrip", "CalAngleData.savetxt(save_charge)|content", "the charge file written next to the momenta differs from the charges", step=i)
+                                raise Failure()
+                        compared += 1
             elif k == "save_struct":
                 st = {"p": P, "w": np.arange(N) * 0.5, "nest": [P[names[0]], {"x": P[names[1]][:, 0]}]}
                 fn = os.path.join(scratch, "st%d" % i)
